@@ -43,6 +43,9 @@ KEY_RAWFB = "block-raw-fallback-outcap"
 KEY_CDREF = "cdict-byref-contiguous-ignores-deterministic-switch"
 KEY_COPYPARAMS = "copyCCtx-uses-destination-params"
 R2_WHAT = {
+    "mt-jobtable-full-pending-section-gets-new-params":
+        "ZSTDMT: a complete section left pending behind a full jobs table gets the parameters of a mid-frame ZSTD_CCtx_setParameter "
+        "that came after it was accepted: the bytes depend on the output capacities and on the worker count",
     KEY_GENSEQ: "ZSTD_generateSequences leaves cctx->seqCollector armed: every later frame of the context is stored as raw blocks "
                 "(and its sequences are written into the previous caller's array)",
     KEY_LOCALDICT: "the CDict built lazily for ZSTD_CCtx_loadDictionary keeps the parameters of the first frame: after a parameter "
@@ -1853,7 +1856,7 @@ def r2_groups(rng, gid0, inputs, dicts, tiny, quick):
 KEY_STABLEIN = "stablein-deferral-end-skips-stability-check"
 KEY_COPYOPEN = "copyCCtx-into-open-stream-keeps-stage"
 KEY_MTSET = "mt-jobtable-full-pending-section-gets-new-params"
-R3_MTSET = False        # enabled once the lead has recorded / repaired the finding (second symptom of mt-jobtable-full-last-job)
+R3_MTSET = True         # recorded as known by the lead (second symptom of mt-jobtable-full-last-job)
 
 
 def r3_groups(rng, gid0, inputs, quick):
@@ -1901,9 +1904,20 @@ def r3_groups(rng, gid0, inputs, quick):
 def judge_r3(g, res, report, ctx):
     rc, out, err, script = res
     n = 0
+    mtjobs, cur = {}, None
     for l in out.split("\n"):
         t = l.split(" ")
-        if t[0] != "X" or len(t) < 4:
+        if t[0] == "J" and cur is not None:
+            mtjobs[cur].append(tuple(t[2:6]))        # size, prefix, first, last of a posted job
+            continue
+        if t[0] != "X" or len(t) < 3:
+            continue
+        if t[1] == "mtpass":
+            cur = int(t[2])
+            mtjobs[cur] = []
+            continue
+        cur = None if t[1] != "mtset" else cur
+        if len(t) < 4:
             continue
         n += 1
         if t[1] == "stablein":
@@ -1929,9 +1943,13 @@ def judge_r3(g, res, report, ctx):
             if not (da and db and seta and setb):
                 report("rt", g, dict(what="multithreaded frame with a mid-frame parameter update: a frame does not decode / the update was refused", line=l))
             elif not ok:
+                # the recorded finding = same posted jobs (sizes, overlaps, first / last flags: theorem 44), other bytes; anything else
+                # (another partition) is reported without the key
+                same_jobs = bool(mtjobs.get(0)) and mtjobs.get(0) == mtjobs.get(1)
                 report("differ", g, dict(what="nbWorkers=%d, jobSize 512 KiB, level 1: %d x e_continue(524288 B), ZSTD_CCtx_setParameter(compressionLevel, %d), "
                                               "e_end(%d B): %d bytes with a huge output buffer, %d bytes with %d byte(s) of output room per call" % (
-                                                  nbw, nsec, lvl, tail, sa, sb, small), line=l), key=KEY_MTSET)
+                                                  nbw, nsec, lvl, tail, sa, sb, small), line=l, jobs=[mtjobs.get(0), mtjobs.get(1)]),
+                       key=KEY_MTSET if same_jobs else None)
         elif t[1] == "copyopen":
             nb, we, e0, st1, e1, st2, e2, e3, d = (int(x) for x in t[2:11])
             ok = (e0 == 0 and st1 == 1 and e1 == 0 and st2 == 0 and e2 == 0 and e3 == 0 and d == 5000)
@@ -1967,9 +1985,44 @@ def r3_lockstep(ctx, model, results, report):
                 calls += [c2[0], c2[1], c2[1], 2]
             cases.append((17, [0, 131072] + calls))
             meta.append((g, l, mode, endop, e1, e2, estab, regen, bmax, n1, n2, st2, nc2, nbw))
-    if not cases:
-        return 0
     n_ok = 0
+    # multithreaded mid-frame parameter update (Det/MtParams.v, opcode 18): the (size, level) list of the posted jobs of each pass of
+    # "X mtset"; with a huge output buffer the jobs table is never full (strict prediction); with 1 byte per call the observation must
+    # be the prediction of the never-full schedule or that of "full when the last complete section arrives"
+    sec = 512 << 10
+    for g, res in results:
+        if not getattr(g, "r3", False):
+            continue
+        cur, jl, xs = None, {}, None
+        for l in res[1].split("\n"):
+            t = l.split(" ")
+            if t[0] == "X" and len(t) >= 3 and t[1] == "mtpass":
+                cur = int(t[2])
+                jl[cur] = []
+            elif t[0] == "J" and cur is not None and len(t) >= 7:
+                jl[cur] += [int(t[2]), int(t[6])]
+            elif t[0] == "X" and len(t) >= 7 and t[1] == "mtset":
+                xs = [int(x) for x in t[2:7]]
+                cur = None
+            elif t[0] == "X":
+                cur = None
+        if xs is None or 0 not in jl or 1 not in jl:
+            continue
+        nbw, nsec, tail, lvl, small = xs
+        ops = [0, sec, 0] * nsec + [1, lvl, 0] + [0, tail, 2]
+        pr = model.run([(18, [sec, -1] + ops), (18, [sec, nsec - 1] + ops)])
+        relabel = lambda v: [x if k % 2 == 0 else (1 if x == 0 else x) for k, x in enumerate(v)]      # identity 0 = the initial level 1
+        free, full = relabel(pr[0]), relabel(pr[1])
+        ctx.cov["traces_validated_against_impl"] += 2
+        ok0, ok1 = jl[0] == free, jl[1] in (free, full)
+        ctx.count(("lockstep-mtparams", jl[1] == full, ok0 and ok1), nontrivial=True)
+        if not (ok0 and ok1):
+            report("lockstep", g, dict(model="MtParams.prun (size, level of every posted job)", predicted=dict(never_full=free, full_at_last_section=full),
+                                       observed=dict(big_output=jl[0], one_byte_output=jl[1])))
+        else:
+            n_ok += 2
+    if not cases:
+        return n_ok
     for (g, l, mode, endop, e1, e2, estab, regen, bmax, n1, n2, st2, nc2, nbw), r in zip(meta, model.run(cases)):
         ctx.cov["traces_validated_against_impl"] += 1
         ncall = (2 if endop == 2 else 3) + (1 if mode == 3 else 0)
